@@ -20,8 +20,9 @@ import (
 func init() { vh.RegisterChild("c06run", childMain) }
 
 type wReq struct {
-	ID  int    `json:"id"`
-	Src string `json:"src"`
+	ID    int    `json:"id"`
+	Src   string `json:"src"`
+	Fresh bool   `json:"fresh,omitempty"` // run on a fresh VM (prelude loaded again), not on the long-lived one
 }
 
 type wResp struct {
@@ -60,7 +61,12 @@ func childMain(args []string) int {
 		if pre.Kind != "ok" {
 			rs = wResp{ID: rq.ID, Kind: "prelude-" + pre.Kind, Detail: pre.Detail}
 		} else {
-			o := env.RunSource(rq.Src, "/verif-c06-case.php")
+			e := env
+			if rq.Fresh {
+				e = vh.NewEnv()
+				e.RunSource("<?php\n"+classPrelude+xPrelude(), "/verif-c06-prelude.php")
+			}
+			o := e.RunSource(rq.Src, "/verif-c06-case.php")
 			rs = wResp{ID: rq.ID, Kind: o.Kind, Out: o.Out, Detail: o.Detail}
 		}
 		b, _ := json.Marshal(rs)
@@ -126,7 +132,7 @@ func (r *runner) exec(src string) vh.Outcome {
 		}
 		r.w.nReq++
 		id := r.w.nReq
-		b, _ := json.Marshal(wReq{ID: id, Src: src})
+		b, _ := json.Marshal(wReq{ID: id, Src: src, Fresh: r.fresh})
 		r.w.in.Write(b)
 		r.w.in.WriteByte('\n')
 		if err := r.w.in.Flush(); err != nil {
